@@ -30,6 +30,10 @@ impl Node {
         self.optimize_impl(OptLevel::Full, true)
     }
     fn optimize_impl(&mut self, level: OptLevel, opt_single: bool) -> bool {
+        #[cfg(feature = "verif_hooks")]
+        if !crate::verif::rewrites_on() {
+            return false;
+        }
         let mut optimized = false;
         fn optimize_run(nodes: &mut EcoVec<Node>, level: OptLevel, opt_single: bool) -> bool {
             let mut optimized = false;
